@@ -556,8 +556,10 @@ pub fn supervise(prop: &dyn Property, tier: Tier, seed: u64) -> i32 {
     let dir = run_dir();
     let mut children = Vec::new();
     for shard in 0..nshards {
-        let journal = dir.join(format!("{}-{}-{}.journal", prop.id(), tier.name(), shard));
-        let out = dir.join(format!("{}-{}-{}.json", prop.id(), tier.name(), shard));
+        // the supervisor's pid keeps concurrent runs of the same check apart
+        let pid = std::process::id();
+        let journal = dir.join(format!("{}-{}-{}-{}.journal", prop.id(), tier.name(), pid, shard));
+        let out = dir.join(format!("{}-{}-{}-{}.json", prop.id(), tier.name(), pid, shard));
         let _ = std::fs::remove_file(&out);
         let child = std::process::Command::new(&exe)
             .args([
@@ -619,6 +621,7 @@ pub fn supervise(prop: &dyn Property, tier: Tier, seed: u64) -> i32 {
     let mut inconclusive = Vec::new();
     let findings = load_findings();
 
+    let scratch: Vec<PathBuf> = children.iter().flat_map(|c| [c.2.clone(), c.3.clone()]).collect();
     for (shard, mut child, journal, out) in children {
         // wait with watchdog
         let mut stderr_pipe = child.stderr.take();
@@ -734,6 +737,9 @@ pub fn supervise(prop: &dyn Property, tier: Tier, seed: u64) -> i32 {
         }
     }
 
+    for f in &scratch {
+        let _ = std::fs::remove_file(f);
+    }
     let wall = t0.elapsed().as_secs_f64();
     // evidence
     let ev = json!({
